@@ -84,7 +84,8 @@ class FilePiece {
     char peek() {
       if (position_ == position_end_) {
         Shift();
-        if (at_end_) throw EndOfFileException();
+        // at_end_ only says the window reaches the end of the file; it may still hold data.
+        if (position_ == position_end_) throw EndOfFileException();
       }
       return *position_;
     }
